@@ -182,9 +182,15 @@ def judge(raw: bytes, exp):
     """run the real code on `raw`, compare with the expectation; returns list of (what, expected, observed)"""
     apk = _apk()
     bad = []
-    a = apk.APK(raw, raw=True, skip_analysis=True)
+    try:
+        a = apk.APK(raw, raw=True, skip_analysis=True)
+    except Exception as e:  # noqa
+        return [("a well-formed archive cannot be opened", "APK object", type(e).__name__)]
     for name, _, v3 in SCHEMES:
-        got = bool(getattr(a, f"is_signed_{name}")())
+        try:
+            got = bool(getattr(a, f"is_signed_{name}")())
+        except Exception as e:  # noqa
+            got = "raises " + type(e).__name__
         if got != exp[name]:
             bad.append((f"is_signed_{name} does not reflect the presence of a {name} block", exp[name], got))
     got = bool(a.has_duplicate_apk_signature_ids())
